@@ -324,6 +324,22 @@ func runC06(c *Ctx, r *Run) {
 				}
 			})
 		}
+		// ... and never removed: checkBroadcastHash treats a missing hash as "nothing to compare"
+		var deletes []string
+		for _, fn := range funcsOfPkg(c, c.SSA[c.PkgRel("pkg/protocol").Types]) {
+			fn := fn
+			allInstrs(fn, func(in ssa.Instruction) {
+				call, ok := in.(*ssa.Call)
+				if !ok {
+					return
+				}
+				if bi, ok := call.Call.Value.(*ssa.Builtin); ok && bi.Name() == "delete" && len(call.Call.Args) == 2 && containsField(paramFields(fn, call.Call.Args[0]), hashesName) {
+					deletes = append(deletes, c.Pos(call.Pos()))
+				}
+			})
+		}
+		r.Check("OB-E4", "pkg/protocol.MultiHandler|broadcastHashes-never-deleted", c.Pos(rcv.Pos()), len(deletes) == 0, "a computed broadcast hash stays in the table until the session ends",
+			"entries of "+hashesName+" are deleted at "+strings.Join(deletes, ", ")+": checkBroadcastHash accepts when the reference hash is missing, so the echo comparison for that round silently never runs")
 		r.Check("OB-E4", "pkg/protocol.MultiHandler|broadcastHashes-single-writer", c.Pos(rcv.Pos()), len(updates) == 1 && updates[0].Parent() == rcv, "the per-round broadcast hash is written at exactly one site (receivedAll)", fmt.Sprintf("%d writers of %s", len(updates), hashesName))
 		if len(updates) == 1 && updates[0].Parent() == rcv {
 			mu := updates[0]
@@ -499,7 +515,7 @@ func runC06(c *Ctx, r *Run) {
 	r.Require("OB-E1", 3)
 	r.Require("OB-E2", 4)
 	r.Require("OB-E3", 1)
-	r.Require("OB-E4", 4)
+	r.Require("OB-E4", 5)
 	r.Require("FS-2", 9)
 	r.Require("RG-B", 15)
 }
